@@ -215,10 +215,14 @@ def account(ctx, res, props, by_generator=None):
                         'monitor_stats': stats, 'raft_run_cached': res.get('cached'), 'raft_run_key': res['key'],
                         'traces_after_memory_loss_records': sum(t.get('after_memory_loss', 0) for t in res['traces'] if 'crash' not in t),
                         'records_outside_the_quantifier': [x for t in res['traces'] if 'crash' not in t for x in t.get('outside_scope', [])][:10]})
-    ctx.extra['rule'] = ('traces = scripted scenarios (corpus of fixed findings) + random schedules from three generators (static clusters '
-                         'of 2-5 voters; 0-3 read-only nodes; dynamic membership under the operator discipline) on the real SyncObj objects under '
-                         'virtual time; every event is replayed on the Coq model and the digest of the stepped node state + outputs is compared; '
-                         'non-trivial = at least one election and more than 3 applied entries; distinct by generator+seed')
+    ctx.extra['rule'] = ('traces = scripted scenarios (witnesses of the fixed and known findings, validated against the reverted fix or the '
+                         'seeded change) + random schedules from seven generators on the real SyncObj objects under virtual time: '
+                         'random_trace (static clusters of 2-5 voters), ro_trace (0-3 read-only nodes), member_trace (dynamic membership '
+                         'under the operator discipline), journal_trace (file journal + dump, kills between steps, restarts), '
+                         'killpoint_trace (kills between two storage primitives inside a step), lag_trace (slow links: queued traffic '
+                         'consumed in runs, answers handled across leader ticks), converge_trace (faults then a quiet period; monitors only). '
+                         'Every event of a model-checked trace is replayed on the Coq model and the digest of the stepped node state + '
+                         'outputs is compared; non-trivial = at least one election and more than 3 applied entries; distinct by generator+seed')
     good = [t for t in res['traces'] if 'crash' not in t]
     if good:
         t = good[len(good) // 2]
